@@ -417,3 +417,156 @@ def share_obligations(ctx: Context, module, rules: set, as_rule: str, only=None)
             n += 1
     ctx.functions_analysed |= sub.functions_analysed
     return n
+
+
+# --------------------------------------------------------------------------- path conditions
+
+def path_conditions(fi: FuncInfo, node: ast.AST) -> list[tuple[ast.AST, bool]]:
+    """Conditions known on every path reaching `node`: (test, polarity).
+
+    Enclosing `if` statements contribute (test, True) in the body and (test, False) in the
+    else branch; an earlier sibling `if` whose body always leaves (return/raise/continue/
+    break) and has no else contributes (test, False); one whose else always leaves
+    contributes (test, True)."""
+    from ..flow import _terminates
+    out: list[tuple[ast.AST, bool]] = []
+
+    def rec(stmts) -> bool:
+        prior: list[tuple[ast.AST, bool]] = []
+        for st in stmts:
+            if any(sub is node for sub in ast.walk(st)):
+                out.extend(prior)
+                if isinstance(st, ast.If):
+                    if any(sub is node for b in st.body for sub in ast.walk(b)):
+                        out.append((st.test, True))
+                        rec(st.body)
+                    elif any(sub is node for b in st.orelse for sub in ast.walk(b)):
+                        out.append((st.test, False))
+                        rec(st.orelse)
+                    return True
+                for fld in ('body', 'orelse', 'finalbody'):
+                    subs = getattr(st, fld, None)
+                    if isinstance(subs, list) and subs and isinstance(subs[0], ast.stmt) and \
+                            not isinstance(st, (ast.FunctionDef, ast.ClassDef)):
+                        if any(sub is node for b in subs for sub in ast.walk(b)):
+                            rec(subs)
+                if isinstance(st, ast.Try):
+                    for h in st.handlers:
+                        if any(sub is node for b in h.body for sub in ast.walk(b)):
+                            rec(h.body)
+                return True
+            if isinstance(st, ast.If):
+                if _terminates(st.body) and not (st.orelse and _terminates(st.orelse)):
+                    prior.append((st.test, False))
+                elif st.orelse and _terminates(st.orelse):
+                    prior.append((st.test, True))
+            elif isinstance(st, ast.While) and not st.orelse:
+                # a while loop left without `break` leaves its test false
+                breaks = [n for n in walk_no_nested(st) if isinstance(n, ast.Break)]
+                inner_loops = [n for n in walk_no_nested(st) if isinstance(n, (ast.For, ast.While)) and n is not st]
+                own_breaks = [b for b in breaks if not any(any(x is b for x in ast.walk(l)) for l in inner_loops)]
+                if not own_breaks:
+                    prior.append((st.test, False))
+        return False
+    rec(fi.node.body)
+    norm: list[tuple[ast.AST, bool]] = []
+    for test, pol in out:
+        while isinstance(test, ast.UnaryOp) and isinstance(test.op, ast.Not):
+            test, pol = test.operand, not pol
+        # a conjunction known to be true gives each conjunct; a disjunction known to be false gives each negated disjunct
+        if isinstance(test, ast.BoolOp) and ((isinstance(test.op, ast.And) and pol) or (isinstance(test.op, ast.Or) and not pol)):
+            for v in test.values:
+                vp = pol
+                while isinstance(v, ast.UnaryOp) and isinstance(v.op, ast.Not):
+                    v, vp = v.operand, not vp
+                norm.append((v, vp))
+        norm.append((test, pol))
+    return norm
+
+
+def none_test(test: ast.AST) -> Optional[tuple[ast.AST, bool]]:
+    """`X is None` -> (X, True); `X is not None` -> (X, False); `not <...>` flips."""
+    if isinstance(test, ast.UnaryOp) and isinstance(test.op, ast.Not):
+        inner = none_test(test.operand)
+        return None if inner is None else (inner[0], not inner[1])
+    if isinstance(test, ast.Compare) and len(test.ops) == 1 and is_none(test.comparators[0]) and not is_none(test.left):
+        if isinstance(test.ops[0], (ast.Is, ast.Eq)):
+            return (test.left, True)
+        if isinstance(test.ops[0], (ast.IsNot, ast.NotEq)):
+            return (test.left, False)
+    return None
+
+
+def known_none(fi: FuncInfo, node: ast.AST, is_subject) -> Optional[bool]:
+    """On every path to `node`, is the subject (recognised by is_subject(expr)) known to be None (True) / not None (False)?"""
+    for test, pol in path_conditions(fi, node):
+        nt = none_test(test)
+        if nt is not None and is_subject(nt[0]):
+            return nt[1] if pol else (not nt[1])
+    return None
+
+
+def polygons_mask_ok(ctx: Context, fi: FuncInfo) -> tuple[bool, str]:
+    """`mask[n] = polygons[n] is not None` for every slot n, in order - in any of the usual spellings."""
+    flow = ctx.flow(fi)
+
+    def is_polygons(e) -> bool:
+        return flow.canon(e) == ('attr', ('param', 'self'), 'polygons')
+
+    rets = fi.returns()
+    if not rets:
+        return False, 'no return'
+    for r in rets:
+        v = flow.resolve(r.value)
+        # fromiter / array / asarray of a generator or list comprehension
+        if isinstance(v, ast.Call) and (callee(ctx, fi, v) or '') in ('numpy.fromiter', 'numpy.array', 'numpy.asarray') and v.args:
+            g = flow.resolve(v.args[0])
+            if isinstance(g, (ast.GeneratorExp, ast.ListComp)) and len(g.generators) == 1 and not g.generators[0].ifs \
+                    and is_polygons(g.generators[0].iter) and isinstance(g.generators[0].target, ast.Name):
+                nt = none_test(g.elt)
+                if nt is not None and isinstance(nt[0], ast.Name) and nt[0].id == g.generators[0].target.id and nt[1] is False:
+                    cnt = kwarg(v, 'count')
+                    if cnt is None or (isinstance(cnt, ast.Attribute) and cnt.attr == 'size' and is_polygons(cnt.value)) or \
+                            (isinstance(cnt, ast.Call) and dotted(cnt.func) == 'len' and is_polygons(cnt.args[0])):
+                        continue
+            return False, f"mask built as {norm_text(v)[:80]}"
+        # polygons != None   (element-wise)
+        nt = none_test(v) if isinstance(v, ast.Compare) else None
+        if nt is not None and is_polygons(nt[0]) and nt[1] is False:
+            continue
+        # explicit loop:  mask = zeros(polygons.size); for i, p in enumerate(polygons): [if p is not None:] mask[i] = ...
+        if isinstance(r.value, ast.Name) or isinstance(v, ast.Call):
+            name = r.value.id if isinstance(r.value, ast.Name) else None
+            inner = r.value
+            while name is None and isinstance(inner, ast.Call) and inner.args:
+                inner = inner.args[-1]
+                if isinstance(inner, ast.Name):
+                    name = inner.id
+            alloc = [n for n in walk_no_nested(fi.node) if isinstance(n, ast.Assign) and isinstance(n.targets[0], ast.Name) and n.targets[0].id == name
+                     and isinstance(n.value, ast.Call) and (callee(ctx, fi, n.value) or '') in ('numpy.zeros', 'numpy.full')]
+            loops = [n for n in walk_no_nested(fi.node) if isinstance(n, ast.For)]
+            if name and len(alloc) == 1 and len(loops) == 1:
+                a, lp = alloc[0], loops[0]
+                size = a.value.args[0] if a.value.args else None
+                size_ok = size is not None and ((isinstance(size, ast.Attribute) and size.attr == 'size' and is_polygons(size.value))
+                                                or (isinstance(size, ast.Call) and dotted(size.func) == 'len' and is_polygons(size.args[0])))
+                falsy = callee(ctx, fi, a.value) == 'numpy.zeros' or const_value(kwarg(a.value, 'fill_value') or (a.value.args[1] if len(a.value.args) > 1 else ast.Constant(None)), None) is False
+                it = flow.resolve(lp.iter)
+                enum_ok = isinstance(it, ast.Call) and dotted(it.func) == 'enumerate' and len(it.args) == 1 and is_polygons(it.args[0]) \
+                    and isinstance(lp.target, ast.Tuple) and len(lp.target.elts) == 2 and all(isinstance(e, ast.Name) for e in lp.target.elts)
+                if size_ok and falsy and enum_ok:
+                    ivar, pvar = lp.target.elts[0].id, lp.target.elts[1].id
+                    stores = [n for n in ast.walk(lp) if isinstance(n, ast.Assign) and isinstance(n.targets[0], ast.Subscript)
+                              and isinstance(n.targets[0].value, ast.Name) and n.targets[0].value.id == name]
+                    if len(stores) == 1 and isinstance(stores[0].targets[0].slice, ast.Name) and stores[0].targets[0].slice.id == ivar:
+                        st = stores[0]
+                        val_nt = none_test(st.value) if isinstance(st.value, ast.Compare) else None
+                        if val_nt is not None and isinstance(val_nt[0], ast.Name) and val_nt[0].id == pvar and val_nt[1] is False \
+                                and not path_conditions(fi, st):
+                            continue
+                        if const_value(st.value, None) is True and known_none(fi, st, lambda e: isinstance(e, ast.Name) and e.id == pvar) is False \
+                                and len(path_conditions(fi, st)) == 1:
+                            continue
+            return False, f"mask built by an unrecognised construction ({norm_text(v)[:60]})"
+        return False, f"mask built as {norm_text(v)[:80]}"
+    return True, 'mask[n] = polygons[n] is not None'
